@@ -46,6 +46,18 @@ def model_check(run, drv, P, c, what, params, extra_events=None, nworkers=None, 
         run.obligation('trace validation: real history accepted by the model (%s)' % what, False,
                        'event %d %s %s; preceding: %s; case %s' % (i, json.dumps(ans.get('event')), ans.get('why'), json.dumps(E.to_model_events(trace[max(0, i - 6):i])), json.dumps(params)))
         return ans
+    # the scan obligation of C01.exec_complete: a worker leaves with status 0 only after accounting for every task
+    if ans.get('scanViolatedAt') is not None:
+        i = ans['scanViolatedAt']
+        ev = E.to_model_events(trace)[i]
+        w = ev[1]
+        run.count('scan_obligation_violations')
+        mine = [e for e in E.to_model_events(trace[:i]) if len(e) > 1 and e[1] == w]
+        fail_case(run, 'leaves-without-accounting-for-every-task', 'worker %d ended its loop with status 0 (event %d of the history) without having accounted for every task: for some task it has neither seen the '
+                  'result, nor found it locked by another worker, nor - since it last finished a task - seen a dependency of it without a result (%s); its last events: %s'
+                  % (w, i, what, json.dumps(mine[-12:])), P, params)
+    else:
+        run.count('scan_obligation_checked')
     # final shared state must agree
     mres = {i: v for i, v in enumerate(ans['res']) if v is not None}
     if mres != c.final and extra_events is None:
